@@ -15,6 +15,7 @@ let table = [
   ("conntable", Model.entry_conntable);
   ("abi", Model.entry_abi);
   ("gt", Model.entry_gt);
+  ("ed", Model.entry_ed);
   ("adaptor", Model.entry_adaptor);
   ("adaptorgas", Model.entry_adaptor_gas);
   ("firstevent", Model.entry_firstevent);
